@@ -21,3 +21,7 @@ def run(ctx):
     # (the specification's rows for that prefix) is the restriction of some returned row -- implied by the comparison
     # with the left-join specification; the count is reported for the evidence
     ctx.cov["optional_clauses"] = sum(sum(1 for c in (r["clauses"] or []) if c["Optional"]) for r in cases)
+
+
+def search(ctx, broken):
+    return pc.search_crash(ctx, "c10")
